@@ -1,11 +1,16 @@
 package verifsim
 
 import (
+	"bufio"
 	"encoding/binary"
 	"fmt"
 	"net"
+	"net/http"
+	"net/url"
 	"sort"
 	"time"
+
+	"github.com/gorilla/websocket"
 
 	"github.com/cbeuw/Cloak/internal/common"
 	mux "github.com/cbeuw/Cloak/internal/multiplex"
@@ -36,6 +41,46 @@ type SessParams struct {
 	// Window > 0: every connection has that send window (bytes outstanding before
 	// a write blocks): a writer only gets on while the peer's read loop consumes
 	Window int `json:"window,omitempty"`
+	// DarkLink > 0: connection DarkLink-1 is a dead path from the start, silently
+	// and in both directions, for DarkMS of virtual time (simnet.Blackhole)
+	// WS: the connections are common.WebSocketConn (the CDN transport's wrapper: a
+	// real gorilla client and upgrader over each simulated link) instead of TLSConn
+	WS       bool `json:"ws,omitempty"`
+	DarkLink int  `json:"dark_link,omitempty"`
+	DarkMS   int  `json:"dark_ms,omitempty"`
+}
+
+// wsPair upgrades a simulated link to a pair of real WebSocket connections.
+func wsPair(c *Ctx, a, b net.Conn) (cl, sv net.Conn) {
+	hs := 0
+	simsync.Go("h:ws-upgrade", func() {
+		br := bufio.NewReader(b)
+		req, err := http.ReadRequest(br)
+		if err != nil {
+			return
+		}
+		up := websocket.Upgrader{ReadBufferSize: 16480, WriteBufferSize: 16480}
+		conn, err := up.Upgrade(&hijackRW{b, bufio.NewReadWriter(br, bufio.NewWriter(b)), http.Header{}}, req, nil)
+		if err != nil {
+			return
+		}
+		sv = &common.WebSocketConn{Conn: conn}
+		hs++
+	})
+	simsync.Go("h:ws-dial", func() {
+		u, _ := url.Parse("ws://cdn.example.com/path")
+		conn, _, err := websocket.NewClient(a, u, http.Header{}, 16480, 16480)
+		if err != nil {
+			return
+		}
+		cl = &common.WebSocketConn{Conn: conn}
+		hs++
+	})
+	c.Drive(func() bool { return hs == 2 })
+	if hs != 2 {
+		return nil, nil
+	}
+	return cl, sv
 }
 
 type StallPlan struct {
@@ -118,8 +163,20 @@ func NewSessWorld(c *Ctx, p SessParams, cValve, sValve mux.Valve) *SessWorld {
 			l.Dir[0].Weight, l.Dir[1].Weight = p.Weights[i], p.Weights[i]
 		}
 		sw.Links = append(sw.Links, l)
+		if p.WS {
+			cl, sv := wsPair(c, a, b)
+			if cl == nil {
+				panic("websocket handshake over a simulated link failed")
+			}
+			sw.C.AddConnection(cl)
+			sEnds = append(sEnds, sv)
+			continue
+		}
 		sw.C.AddConnection(common.NewTLSConn(a))
 		sEnds = append(sEnds, common.NewTLSConn(b))
+	}
+	if p.DarkLink > 0 && p.DarkLink <= len(sw.Links) {
+		c.Net.Blackhole(sw.Links[p.DarkLink-1], time.Duration(p.DarkMS)*time.Millisecond)
 	}
 	for _, st := range p.Stalls {
 		if st.Link < len(sw.Links) {
